@@ -11,7 +11,8 @@ THEOREM_NAMES = ['run_fuel_mono', 'input_rt', 'output_fluor_rt', 'input_fluor_re
                  'document_rt', 'document_leading_rt', 'document_open_rt', 'stmtText_reporter', 'stmtText_input', 'stmtText_input_ident',
                  'stmtText_input_wire_f', 'stmtText_output_fluor', 'stmtText_output_wire', 'stmtText_seesaw', 'stmtText_inputfanout',
                  'stmtText_seesawOR', 'stmtText_seesawAND', 'stmtText_wireconc', 'stmtText_wireconc_decimal', 'stmtText_gateO_conc',
-                 'stmtText_gateI_conc', 'stmtText_thO_conc', 'ssw_document_layout_rt', 'ssw_document_layout_open_rt', 'ssw_document_tabs_rt', 'stmtTextT_reporter', 'stmtTextT_input']
+                 'stmtText_gateI_conc', 'stmtText_thO_conc', 'ssw_document_layout_rt', 'ssw_document_layout_open_rt', 'ssw_document_tabs_rt', 'stmtTextT_reporter', 'stmtTextT_input',
+                 'ssw_accepts_only_valid', 'input_binds_wire', 'conc_value_unsigned', 'reporter_arity', 'negative_concentration_rejected_general']
 THEOREMS = ['Dsd.C19.' + t for t in THEOREM_NAMES]
 ASSUMPTIONS = [
     'pyparsing 3.3.2 is modelled by a hand-written interpreter (Model/Pyparsing.lean); the seesaw grammar term (Gen/Grammars.lean: '
@@ -29,7 +30,10 @@ MANIFEST = {
             'for every statement kind: the 15 stmtText_* instances), each followed by its line end and any number of blank lines, the '
             'document parses to the list of the statements\' trees (concatenation, in order); document_leading_rt (leading blank lines), '
             'document_open_rt (no final newline), ssw_document_layout_rt (a comment after any statement, LF or CRLF line ends, any '
-            'number of blank / comment-only lines before, between and after the statements, unterminated last line). ssw_document_tabs_rt (blank/tab separators; instances for reporter and input). Blanks at the '
+            'number of blank / comment-only lines before, between and after the statements, unterminated last line). ssw_document_tabs_rt (blank/tab separators; instances for reporter and input). REJECTIONS in general form: '
+            'ssw_accepts_only_valid (whatever text the parser model accepts, every returned statement has one of the valid shapes '
+            'SswValid: right arity and argument kinds), hence input_binds_wire (an INPUT is never bound to a fluorophore), '
+            'reporter_arity, conc_value_unsigned, negative_concentration_rejected_general. Blanks at the '
             'remaining token boundaries, tabs in the other statement kinds, scientific concentrations, thI and files are NOT theorems: they are decided on the real parser by a reference renderer, '
             'and the model is compared with pyparsing on the same texts, the systematic negative family and random mutations.',
     'note': 'pyparsing semantics is modelled by hand and tied by differential testing only.',
